@@ -1,0 +1,10 @@
+//go:build verif
+// +build verif
+
+package server
+
+// Add-only export for the verification harness (build tag verif), property C30.
+
+// VerifIsStoredHashPassword exposes isStoredHashPassword: is a configured password
+// in stored-hash form ('*' + 40 hex digits), which the clear-text loops skip.
+func VerifIsStoredHashPassword(password string) bool { return isStoredHashPassword(password) }
